@@ -24,3 +24,18 @@ for d in sorted(glob.glob('seeded/*/')):
     rows.append(f"| {i} | {m.get('property')} | {m.get('summary','').replace('|','/')} | {m.get('needs','').replace('|','/')[:300]} | {caught_s} |")
 open('seeded/README.md', 'w').write(head + '| id | property | change | needs | caught by |\n|----|----------|--------|-------|-----------|\n' + '\n'.join(rows) + '\n')
 print('\n'.join(r[:200] for r in rows))
+
+# compact table for DESIGN.md section 13 (between markers)
+d = open('DESIGN.md').read()
+b, e = '<!-- seeded-table-begin -->', '<!-- seeded-table-end -->'
+if b in d and e in d:
+    lines = ['| id | breaks | change (short) | reported by |', '|----|--------|----------------|-------------|']
+    for dd in sorted(glob.glob('seeded/*/')):
+        i = os.path.basename(dd.rstrip('/'))
+        try: m = json.load(open(dd + 'meta.json'))
+        except Exception: continue
+        short = m.get('summary', '').replace('|', '/').replace('\n', ' ')
+        short = short[:230] + ('...' if len(short) > 230 else '')
+        lines.append(f"| {i} | {m.get('property')} | {short} | {m.get('caught_by', '?')} |")
+    d = d.split(b)[0] + b + '\n' + '\n'.join(lines) + '\n' + e + d.split(e)[1]
+    open('DESIGN.md', 'w').write(d)
